@@ -112,7 +112,15 @@ func c19M7Finder(r *core.R, m *c19Model, s *c19Search, tsFld *types.Var) {
 	}, nil)
 	sort.Slice(narrow, func(i, j int) bool { return narrow[i].Pos() < narrow[j].Pos() })
 	sort.Slice(giveUp, func(i, j int) bool { return giveUp[i].Pos() < giveUp[j].Pos() })
-	if len(narrow) == 0 {
+	direct := map[ast.Node]bool{}
+	for _, n := range narrow {
+		direct[n] = true
+	}
+	carried := m.staleNarrowings(s, direct)
+	for _, c := range carried {
+		r.Bad(cNarrow+" via "+c.carrier.Name(), c.write.Pos(), "`%s` moves the cursor %s to a value read from %s, which `%s` recorded while the probe found no file: the cursor moves past sequence numbers on the evidence of a missing file, although the write itself sits on a path where a state was found. A 404 says nothing about the files below it when it is an isolated gap: e.g. states 1000..5000 with 2500 missing and t before the gap: the restart from the recorded id skips the states below it and the lookup answers 2501 instead of 1501", src(fs, c.write), cur.Name(), c.carrier.Name(), src(fs, c.defined))
+	}
+	if len(narrow) == 0 && len(carried) == 0 {
 		r.OK(cNarrow, s.fFetch.Pos(), "after `%s` found no file (%s == nil) the cursor %s is changed by single steps only before the next probe: no sequence number is passed over unprobed", src(fs, s.fFetch), c19AnyName(s.fS), cur.Name())
 	}
 	for _, n := range narrow {
